@@ -614,6 +614,12 @@ def polygons_mask_ok(ctx: Context, fi: FuncInfo) -> tuple[bool, str]:
         return False, 'no return'
     for r in rets:
         v = flow.resolve(r.value)
+        # ~shapely.is_missing(polygons) / numpy.logical_not(...): element-wise "is not None" of an object array of geometries
+        inner_ = v.operand if isinstance(v, ast.UnaryOp) and isinstance(v.op, ast.Invert) else \
+            (v.args[0] if isinstance(v, ast.Call) and (callee(ctx, fi, v) or '') in ('numpy.logical_not', 'numpy.invert') and len(v.args) == 1 else None)
+        inner_ = flow.resolve(inner_) if inner_ is not None else None
+        if isinstance(inner_, ast.Call) and (callee(ctx, fi, inner_) or '').endswith('shapely.is_missing') and len(inner_.args) == 1 and not inner_.keywords and is_polygons(inner_.args[0]):
+            continue
         # fromiter / array / asarray of a generator or list comprehension
         if isinstance(v, ast.Call) and (callee(ctx, fi, v) or '') in ('numpy.fromiter', 'numpy.array', 'numpy.asarray') and v.args:
             g = flow.resolve(v.args[0])
